@@ -279,6 +279,11 @@ func driveHTTP(cfg *hx.RunCfg) error {
 		return err
 	}
 	cases = append(cases, acases...)
+	gcases, err := groupCases(g, st, cfg.Tier)
+	if err != nil {
+		return err
+	}
+	cases = append(cases, gcases...)
 	cf := &hx.CaseFile{
 		Imports: "From FRP Require Import Corr.C02.\nOpen Scope Z_scope.\n",
 		Typ:     "case",
@@ -289,13 +294,14 @@ func driveHTTP(cfg *hx.RunCfg) error {
 			counter("NHOP", "has_hop") + counter("NUNCLEANQ", "has_unclean_query") + counter("NABSFORM", "has_absform") +
 			counter("NOVERRIDE", "has_declared_overrides_user") + counter("NCOLLISION", "has_collision") +
 			counter("NERR504", "is_err504") + counter("NERR404", "is_err404") +
-			counter("NADMITUP", "(is_admit 1)") + counter("NADMITSTALL", "(is_admit 2)"),
+			counter("NADMITUP", "(is_admit 1)") + counter("NADMITSTALL", "(is_admit 2)") +
+			counter("NGROUPFWD", "is_fwdg") + counter("NGROUPCONNECT", "(is_tunnel 4)") + counter("NREGROUP", "is_regroup") + counter("NGROUPSTALL", "is_groupstall"),
 	}
 	if err := cf.Write(cfg.Out); err != nil {
 		return err
 	}
 	cfg.St["cases"] = len(cases)
-	cfg.St["distinct_nontrivial"] = len(st.distinct) + len(ecases) + len(acases)
+	cfg.St["distinct_nontrivial"] = len(st.distinct) + len(ecases) + len(acases) + len(gcases)
 	cfg.St["samples"] = append([]string{}, st.samples...)
 	cfg.St["distribution"] = sortedCounts(st.dist)
 	cfg.St["impl_failures"] = append([]map[string]string{}, st.impl...)
